@@ -30,9 +30,9 @@ def wrapS (m : Int) (x : Int) : Int :=
 
 /-- bitwise operator on signed values of a type with 2^n = `m` bit patterns (two's complement): applied to the
     bit patterns, the result read back as a signed value -/
-def sbits (m : Nat) (op : Nat → Nat → Nat) (a b : Int) : Int :=
-  let r : Int := ((op (a % (m : Int)).toNat (b % (m : Int)).toNat % m : Nat) : Int)
-  if r < (m : Int) / 2 then r else r - (m : Int)
+def sbits (m : Int) (op : Nat → Nat → Nat) (a b : Int) : Int :=
+  let r : Int := ((op (a % m).toNat (b % m).toNat : Nat) : Int) % m
+  if r < m / 2 then r else r - m
 
 /-- `d[i]` -/
 def getAt (d : Bytes) (i : Int) : Res Nat :=
